@@ -19,6 +19,7 @@ import (
 	"errors"
 	"net"
 	"sync"
+	"sync/atomic"
 	"time"
 
 	"github.com/caddyserver/caddy/v2"
@@ -72,7 +73,9 @@ type Connection struct {
 	frozenOffset int
 	matching     bool
 
-	bytesRead, bytesWritten uint64
+	// updated atomically: the proxy handler writes to a connection from one
+	// goroutine per upstream peer
+	bytesRead, bytesWritten atomic.Uint64
 }
 
 var ErrConsumedAllPrefetchedBytes = errors.New("consumed all prefetched bytes")
@@ -111,14 +114,14 @@ func (cx *Connection) Read(p []byte) (n int, err error) {
 	// buffer has been "depleted" so read from
 	// underlying connection
 	n, err = cx.Conn.Read(p)
-	cx.bytesRead += uint64(n)
+	cx.bytesRead.Add(uint64(n))
 
 	return
 }
 
 func (cx *Connection) Write(p []byte) (n int, err error) {
 	n, err = cx.Conn.Write(p)
-	cx.bytesWritten += uint64(n)
+	cx.bytesWritten.Add(uint64(n))
 	return
 }
 
@@ -132,14 +135,15 @@ func (cx *Connection) Write(p []byte) (n int, err error) {
 // therefore starts with an empty buffer of its own. Sharing cx's
 // buffer would deliver those bytes twice and out of order.
 func (cx *Connection) Wrap(conn net.Conn) *Connection {
-	return &Connection{
-		Conn:         conn,
-		Context:      cx.Context,
-		Logger:       cx.Logger,
-		matching:     cx.matching,
-		bytesRead:    cx.bytesRead,
-		bytesWritten: cx.bytesWritten,
+	wrapped := &Connection{
+		Conn:     conn,
+		Context:  cx.Context,
+		Logger:   cx.Logger,
+		matching: cx.matching,
 	}
+	wrapped.bytesRead.Store(cx.bytesRead.Load())
+	wrapped.bytesWritten.Store(cx.bytesWritten.Load())
+	return wrapped
 }
 
 // prefetch tries to read all bytes that a client initially sent us without blocking.
@@ -163,7 +167,7 @@ func (cx *Connection) prefetch() (err error) {
 			cx.buf = append(cx.buf, tmp[:n]...)
 		}
 
-		cx.bytesRead += uint64(n)
+		cx.bytesRead.Add(uint64(n))
 
 		if err != nil {
 			return err
